@@ -1,5 +1,7 @@
 \* template: lib/checks/c15_clientmain.py replaces Mode / WithMain per group of traces
 CONSTANTS
+  NParts = 1
+  Part = 0
   NConns = 4
   NUp = 4
   NDown = 4
@@ -11,6 +13,7 @@ CONSTANTS
   StdinClose = TRUE
   Mode = "socks"
   DialFails = FALSE
+  SfScripted = FALSE
   EnvLite = FALSE
   AsIs_Spin = FALSE
   AsIs_SharedConfig = FALSE
